@@ -1715,6 +1715,10 @@ void CoreSMTSolver::declareVarsToTheories()
             bool appearsInUf = logic.appearsInUF(atom);
             if (appearsInUf) {
                 theory_handler.declareAtom(atom);
+            } else if (isNeededForModelExtension(v)) {
+                // The variable only remains in clauses of eliminated variables: it must still be decided (and a theory atom given
+                // to the theory), otherwise model extension reads it as unassigned while the printed model gives it a value
+                if (logic.isTheoryTerm(atom)) { theory_handler.declareAtom(atom); }
             } else {
                 setDecisionVar(v, false);
             }
